@@ -31,7 +31,7 @@ META = {
     ),
     "assumptions": ["single worker, messages are processed in the order they were kicked"],
     "required_counters": ["cases", "cases_with_retry", "cases_budget_exhausted", "pair_cases"],
-    "bounds": {"quick": {"attempts": 8, "max_retries": "0..6"}, "thorough": {"attempts": 8, "max_retries": "0..6, plus two stacked middlewares and pickle serializer"}},
+    "bounds": {"quick": {"attempts": 8, "max_retries": "0..6; long chains: 7..13 with up to 16 failing attempts"}, "thorough": {"attempts": 8, "max_retries": "0..6 and the long chains, plus two stacked middlewares and pickle serializer"}},
 }
 
 SEQS: List[Tuple[str, ...]] = [tuple("F" * k + x) for k in range(MAX_ATTEMPTS) for x in "SN"] + [tuple("F" * MAX_ATTEMPTS)]
@@ -46,10 +46,17 @@ MAXR = [("int", m) for m in range(7)] + [("str", m) for m in range(7)] + [("defa
 ROE = [("bool", True), ("bool", False), ("str", "True"), ("str", "true"), ("str", "False"), ("default", True), ("default", False)]
 
 
+# long chains: two-digit retry counters (the counter travels as a label through every encode/decode)
+LONG_SEQS: List[Tuple[str, ...]] = [tuple("F" * 16), tuple("F" * 9 + "S"), tuple("F" * 10 + "S"), tuple("F" * 12 + "N"), tuple("F" * 13 + "S")]
+LONG_MAXR = [(k, m) for k in ("int", "str", "default") for m in (7, 9, 10, 11, 12, 13)]
+
+
 def cases(tier: str) -> List[Tuple[Any, ...]]:
     out = []
     for seq, mr, roe, nror, ul in itertools.product(SEQS, MAXR, ROE, (True, False), (False, True)):
         out.append((seq, mr, roe, nror, ul, "json"))
+    for seq, mr, roe, nror in itertools.product(LONG_SEQS, LONG_MAXR, [("bool", True), ("default", True), ("str", "true")], (True, False)):
+        out.append((seq, mr, roe, nror, False, "json"))
     if tier == "thorough":
         for seq, mr, roe, nror in itertools.product(SEQS, MAXR[:7], ROE[:3], (True, False)):
             out.append((seq, mr, roe, nror, True, "pickle"))
@@ -145,7 +152,7 @@ def run_case(case: Tuple[Any, ...], acc: Acc, seen: set) -> None:
         guard = 0
         while pending:
             guard += 1
-            if guard > 3 * MAX_ATTEMPTS:
+            if guard > 5 * MAX_ATTEMPTS:
                 break
             data = pending.pop(0)
             await rec.callback(data)
